@@ -1,22 +1,75 @@
 // @append-to: src/ber/header.rs
-// Counterexample finder / native replay for BerHeader::from_ber (bounded: inputs of 0..6 octets).
-// The executable form of the contract: total, and the content fits the returned tail.
+// Counterexample finder / native replay for BerHeader::from_ber (bounded: inputs of 0..11 octets — long enough
+// for a tag, 0x89 and nine length octets). The executable form of the contract: total, and the result agrees
+// with an independent X.690 reference reader that computes the length in u128.
 #[cfg(any(kani, test))]
 mod verif_find_header {
     use super::*;
+    // (header length, declared content length, tag number mod 256)
+    fn ref_header(i: &[u8]) -> Option<(usize, u128, u8)> {
+        if i.len() < 2 {
+            return None;
+        }
+        let mut k = 1usize;
+        let mut tag: u8 = i[0] & 0x1f;
+        if tag == 0x1f {
+            tag = 0;
+            loop {
+                if k >= i.len() {
+                    return None;
+                }
+                let t = i[k];
+                k += 1;
+                tag = (tag << 7) | (t & 0x7f);
+                if t < 128 {
+                    break;
+                }
+            }
+        }
+        if k >= i.len() {
+            return None;
+        }
+        let n = i[k];
+        k += 1;
+        let mut len: u128 = 0;
+        if n < 128 {
+            len = n as u128;
+        } else {
+            let cnt = (n & 0x7f) as usize;
+            if k + cnt > i.len() || cnt > 15 {
+                return None;
+            }
+            let mut j = 0;
+            while j < cnt {
+                len = (len << 8) | (i[k + j] as u128);
+                j += 1;
+            }
+            k += cnt;
+        }
+        if (k as u128) + len > (i.len() as u128) {
+            return None;
+        }
+        Some((k, len, tag))
+    }
     pub fn check_from_ber(i: &[u8]) {
-        if let Ok((tail, h)) = BerHeader::from_ber(i) {
-            assert!(tail.len() >= h.length);
-            assert!(tail.len() < i.len());
+        match (BerHeader::from_ber(i), ref_header(i)) {
+            (Ok((tail, h)), Some((hlen, len, tag))) => {
+                assert!(h.length as u128 == len);
+                assert!(tail.len() == i.len() - hlen);
+                assert!(h.tag == tag);
+            }
+            (Ok(_), None) => panic!("accepted a header X.690 does not allow for this input"),
+            (Err(_), Some(_)) => panic!("refused a well-formed header"),
+            (Err(_), None) => {}
         }
     }
     #[cfg(kani)]
     #[kani::proof]
-    #[kani::unwind(8)]
+    #[kani::unwind(13)]
     fn finder_from_ber() {
-        let a: [u8; 6] = kani::any();
+        let a: [u8; 11] = kani::any();
         let n: usize = kani::any();
-        kani::assume(n <= 6);
+        kani::assume(n <= 11);
         check_from_ber(&a[..n]);
     }
     #[test]
